@@ -54,8 +54,13 @@ def message_abs(o):
     if n in ('SshDHKeyExchangeInit', 'SshDHGroupExchangeInit'):
         return 'dh_init', {'code': int(o.get_message_code()), 'e': list(o.ephemeral_public_key)}
     if n in ('SshDHKeyExchangeReply', 'SshDHGroupExchangeReply'):
+        try:
+            ka = key_abs(o.host_public_key)
+        except Exception:  # pylint: disable=broad-except
+            ka = None
         return 'dh_reply', {'code': int(o.get_message_code()), 'key_blob': list(bytes(o.host_public_key.key_bytes)),
-                            'f': list(o.ephemeral_public_key), 'signature': list(o.signature)}
+                            'f': list(o.ephemeral_public_key), 'signature': list(o.signature),
+                            'key_kind': ka[0] if ka else 'opaque', 'key': ka[1] if ka else {'alg': []}}
     if n == 'SshDHGroupExchangeRequest':
         return 'gex_request', {'min': digits(o.gex_min), 'n': digits(o.gex_number), 'max': digits(o.gex_max)}
     if n == 'SshDHGroupExchangeGroup':
